@@ -1,4 +1,3 @@
-(* WIP *)
 (* Model of packets/codec.go: the primitive field decoders/encoders.  Go slices are [bytes] with an
    explicit integer offset exactly as in the Go code; the only ways to look into a buffer are
    [index] (Go: buf[i]) and [slice] (Go: buf[lo:hi]), and both yield [Panic] when Go would panic
